@@ -64,10 +64,10 @@ _UWM = tuple([f"{e}.{k}:8" for e in ("h_take_modular", "h_take_restore_modular")
              "model_allocator_checkpoint_take.0:6", "model_allocator_checkpoint_take.1:6", "model_allocator_checkpoint_restore.0:6", "model_allocator_checkpoint_restore.1:6", "model_allocator_checkpoint_restore.2:5"])
 HARNESSES = HARNESSES + [
     H(name="C05.multi_take.modular", file=FMM, entry="h_take_modular", funcs=["model_allocator_checkpoint_take"], kind="bounded", bound="<= 3 arenas (any numbers of live bytes); per-arena functions by their contracts (executable stubs)",
-      unwindset=_UWM, timeout=900, mem_gb=12, canaries=2, objbits=8,
+      unwindset=_UWM, timeout=900, mem_gb=12, canaries=2, objbits=8, geometry=(4, 1),
       desc="under INV_MM the buffer of exactly full_ckpt_size bytes (CBMC malloc of that size) holds every arena record and the end marker: no write past it; every arena saved once; log gains (ref_i, ckpt)"),
     H(name="C05.multi_take_restore.modular", file=FMM, entry="h_take_restore_modular", funcs=["model_allocator_checkpoint_take", "model_allocator_checkpoint_restore"], kind="bounded",
-      bound="<= 3 arenas in total, any split between arenas existing at the checkpoint and created after it", unwindset=_UWM, timeout=900, mem_gb=12, canaries=2, objbits=8,
+      bound="<= 3 arenas in total, any split between arenas existing at the checkpoint and created after it", unwindset=_UWM, timeout=900, mem_gb=12, canaries=2, objbits=8, geometry=(4, 1),
       desc="records go back to their own arenas, arenas created after the checkpoint are re-initialised, INV_MM (size accounting incl. new arenas) holds again"),
 ]
 HARNESSES = HARNESSES + [
